@@ -274,6 +274,7 @@ def run():
         r.notes["cover_paths"] = len(paths)
         if not thorough and len(paths) > 1500:
             paths = rng.sample(paths, 1500)
+        paths += g.random_walks(1500 if thorough else 200, 10, rng)      # other pasts for the same transitions
         covered = set()
         for pi, p in enumerate(paths):
             covered.update(p)
